@@ -6,33 +6,39 @@ SPEC = {
     "theorems": {"Properties.C16": ["C16_one_verdict_per_selector", "C16_present_not_missing", "C16_never_there_is_bug",
                                     "C16_rule_kind_matters", "C16_alerts_answered_from_rules",
                                     "C16_verdict_reflects_database_at_probe_instants", "C16_probe_instants",
-                                    "C16_range_probe_is_unsliced_runs", "C16_disappeared_metric_is_reported",
+                                    "C16_range_probe_is_unsliced_runs", "C16_disappeared_metric_is_reported", "C16_matcher_never_matches_is_reported",
                                     "C16_nonvacuous"]},
     "harness_args": lambda tier: ["C16", "--n", 400 if tier == "quick" else 8000],
     "search_args": lambda tier: ["C16", "--n", 1200],
     "level": "proof",
     "trusted_base": [
         "Coq 8.16.1 kernel + VM (vm_compute for the correspondence cases and the non-vacuity example); no axioms "
-        "(Print Assumptions: closed under the global context for all 5 theorems)",
-        "hand-written model Model/Series.v of the decision tree of SeriesCheck.Check per checked selector (done map, disable/snooze "
-        "flags, ALERTS special case, step 1 instant count, empty bare selector, step 2 range count of the bare selector through the "
-        "sliced pipeline of C13, recording-rule lookup, checkOtherServer/ignoreMatchingElsewhere, textAndSeverity/ignoreMetrics); "
-        "steps 3-8 are an opaque continuation and are not compared",
-        "inputs taken from the implementation through overlay exports: the list getNonFallbackSelectors(expr) (also cross-checked "
-        "against the generator's by-construction expectation in the oracle), stripLabels(sel).String(), isDisabled/isSnoozed flags",
-        "harness: generators (rule files, databases: present / never / old data only / other label values / disappeared / appeared / "
-        "intermittent), the engine-backed fake Prometheus (/api/v1/query, /api/v1/query_range from the VENDORED promql.Engine over "
-        "an in-memory storage.Queryable; config/flags/metadata canned), attribution of problems to selectors by diagnostic column, "
-        "the visibility-interval serialisation (sample runs widened by the 5m lookback delta), the regexp oracle table (Prometheus "
-        "matcher semantics) and the ignoreMetrics table (Go regexp)",
+        "(Print Assumptions: closed under the global context for all listed theorems)",
+        "hand-written model Model/Series.v of the decision tree of SeriesCheck.Check per checked selector: done map, disable/snooze "
+        "flags, ALERTS special case, step 1 instant count, uptime probe with dummy fallback, empty bare selector, step 2, recording-rule "
+        "lookup, checkOtherServer/ignoreMatchingElsewhere, textAndSeverity/ignoreMetrics, step 3 (absent per label name), the "
+        "accumulated len(problems) tests, step 4 (min-age), steps 5-7 per matcher, step 8, FindGaps against the uptime; the request "
+        "parameters (instant: no time parameter; range: start/end/step of C13's slices). One sub-case is Undetermined and not compared "
+        "(step 6 with non-empty gap lists on both sides: sub-millisecond clock differences decide it)",
+        "inputs taken from the implementation through overlay exports: the list getNonFallbackSelectors(expr) (cross-checked against "
+        "the generator's by-construction expectation in the oracle), stripLabels(sel).String(), isDisabled/isSnoozed flags, getMinAge, "
+        "isLabelValueIgnored",
+        "harness: generators (rule files with extra rules of both kinds named like the referenced metrics/alerts, comments; databases: "
+        "present / never / old data only / other label values / disappeared / appeared / intermittent / appeared, disappeared, "
+        "reappeared 0.5-7.5 min ago; uptime with a hole), the engine-backed fake Prometheus (/api/v1/query and /api/v1/query_range "
+        "from the VENDORED promql.Engine over an in-memory storage.Queryable, honouring time/start/end/step as sent and logging them; "
+        "config/flags/metadata canned), attribution of problems to selectors by diagnostic column, the visibility-interval "
+        "serialisation (sample runs widened by the 5m lookback delta), the regexp oracle table (Prometheus matcher semantics) and the "
+        "ignoreMetrics table (Go regexp)",
         "the real check runs through a real FailoverGroup/Prometheus client (HTTP, JSON streaming, slicing, MergeRanges) against "
         "the fake server; PromQL engine, net/http, JSON decoding trusted as the 'server that actually evaluates the probes'",
     ],
     "assumptions": [
         "queries succeed (healthy server); error paths of the check are C15's subject",
-        "wall clock: the database is generated relative to the run's start with >= 30 min slack around 'now' and >= 3h before the "
-        "lookback window, so the verdict does not depend on the instant within the run at which each probe is evaluated",
-        "selector text determines the selector (the done map of the check keys on selector.String())",
+        "wall clock: presence edges are >= 30 min away from the case's start minute or 0.5-7.5 min before it on half minutes; a case "
+        "during which the clock crosses hh:mm:00.000 or hh:mm:59.000 is run again (all grids, slice boundaries and derived range ends sit "
+        "there), so within a case no comparison pint makes depends on the instant at which a probe is evaluated",
+        "selector text determines the selector (the done map of the check keys on selector.String()); lookbackRange >= 2h",
     ],
 }
 
@@ -44,17 +50,24 @@ def run(ctx):
 MANIFEST = {
     "text": "Theorems (Coq, no axioms) about the model of SeriesCheck.Check as a function of the database the server holds, for ALL "
             "databases, regexp semantics, clocks, settings, rule sets and selector lists: C16_present_not_missing - a checked selector "
-            "for which an instant query returns series now gets no problem at all; C16_never_there_is_bug - a checked selector whose "
-            "metric matches nothing at any instant the lookback probe evaluates (the probe is C13's sliced pipeline) nor now, with no "
-            "recording rule of that name, no disable/snooze comment, not in ignoreMetrics, and no other server (or no "
-            "ignoreMatchingElsewhere), gets exactly a Bug 'query on nonexistent series'; the carve-outs (only checked selectors, "
-            "ALERTS answered from the rule set - C16_alerts_answered_from_rules) are explicit premises; C16_one_verdict_per_selector "
-            "fixes the shape of the verdict list. Tie: end to end on every run - the harness serves query/query_range from the vendored "
-            "PromQL engine over generated in-memory databases, runs the real promql/series check through a real FailoverGroup, and "
-            "coqc compares the problems per selector (summary, severity) with the model; an implementation-level oracle evaluates "
-            "the selectors directly on the database for both clauses.",
-    "note": "Coq 8.16.1 kernel+VM, no axioms. The model covers steps 0-2 of the decision tree (the part the property speaks about); "
-            "steps 3-8 are opaque. Checked-selector list, bare selector text and comment flags are taken from the implementation "
-            "through overlay exports; PromQL engine/HTTP/JSON trusted as the live evaluator; real wall clock with designed slack.",
-    "technique": "Coq theorem over decision-tree model on a database + engine-backed fake Prometheus end-to-end correspondence and oracle",
+            "for which the instant probe (no time parameter: the server's now) returns series gets no problem at all; "
+            "C16_never_there_is_bug - a checked selector whose metric matches nothing at any instant of the range grid nor now, with no "
+            "RECORDING rule of that name (C16_rule_kind_matters: alerting rules never count), no disable/snooze comment, not in "
+            "ignoreMetrics, and no other server (or no ignoreMatchingElsewhere), gets exactly a Bug 'query on nonexistent series'; "
+            "carve-outs are explicit premises (only checked selectors; ALERTS answered from ALERTING rules - "
+            "C16_alerts_answered_from_rules). The probe instants are pinned: the request parameters are part of the model, "
+            "C16_verdict_reflects_database_at_probe_instants - the whole verdict list (steps 0-8) is a function of the database at "
+            "`now` and at the grid points of the slices (C16_probe_instants), C16_range_probe_is_unsliced_runs - every range probe is "
+            "the runs of ONE unsliced evaluation (C13). Steps 3-8 are modelled and compared; two links are stated: "
+            "C16_disappeared_metric_is_reported (step 4, min-age) and C16_matcher_never_matches_is_reported (step 5). Tie: end to end on "
+            "every run - the harness serves query/query_range from the vendored PromQL engine over generated in-memory databases, "
+            "honouring and logging the request parameters, runs the real promql/series check through a real FailoverGroup; coqc "
+            "compares per selector the (summary, severity) list and the requests (evaluation instant of every instant probe, "
+            "start/end/step of every slice) with the model; an implementation-level oracle evaluates the selectors directly on the "
+            "database for both clauses (incl. ALERTS{alertname=X} without alerting rule X).",
+    "note": "Coq 8.16.1 kernel+VM, no axioms. Only tested, not proved: that the Go code is this model (differential), the step-6 sub-case "
+            "with gaps on both sides (Undetermined, skipped), message texts. Checked-selector list, bare selector text, comment flags, "
+            "min-age and ignored labels are taken from the implementation through overlay exports; PromQL engine/HTTP/JSON trusted as "
+            "the live evaluator; real wall clock, cases crossing a critical instant are rerun.",
+    "technique": "Coq theorem over decision-tree model on a database + engine-backed fake Prometheus end-to-end correspondence (verdicts and request parameters) and oracle",
 }
